@@ -176,19 +176,7 @@ def cursor_rule(P, r, fname, cursor_side):
     if not found:
         r.undecided(f'{fname}: copy loop', msg='no loop with a memcpy and a decreasing remaining-length variable was recognised')
 
-def run(ctx):
-    P = ctx.program()
-    r = ctx.rule('R01a', 'split / reassembly loops: bytes copied = cursor advance = decrement of remaining = min(remaining, payload size)',
-                 'with non-constant data a wrong advance places bytes in the wrong fragment; the suite encodes a constant buffer')
-    cursor_rule(P, r, 'prepare_fragments_for_encode', 'src')
-    cursor_rule(P, r, 'fragments_to_string', 'dst')
-    r.require_min(2)
-
-    # ---------------- R01b / R01c
-    rb = ctx.rule('R01b', 'every fragment handed to the backends is 16-byte aligned: fresh allocation or is_addr_aligned(., 16) passed',
-                  'C01 covers unaligned caller buffers; _mm_xor_si128 through __m128i* faults on them')
-    rc = ctx.rule('R01c', 'replacement copy of an unaligned fragment copies header + payload into a buffer of matching size',
-                  'a copy short by sizeof(header) zeroes the last 80 payload bytes of every realigned survivor')
+def rule_realign(ctx, P, rb, rc):
     f = P.fn('prepare_fragments_for_decode')
     C = Canon(P, f)
     arrays = [(pn, 'data' if n == 0 else 'parity') for n, (pty, pn) in enumerate([p for p in f.params if p[0] == 'i8**'][:2])]
@@ -282,4 +270,26 @@ def run(ctx):
         rb.ok('sizeof(fragment_header_t) % 16 == 0 (payload keeps the buffer alignment)', func='fragment_header_t')
     else:
         rb.fail('header size multiple of 16', func='fragment_header_t', sig='sizeof(header) % 16 != 0', loc='include/erasurecode/erasurecode.h', msg='payload pointers are no longer 16-byte aligned')
+
+def run(ctx):
+    P = ctx.program()
+    r = ctx.rule('R01a', 'split / reassembly loops: bytes copied = cursor advance = decrement of remaining = min(remaining, payload size)',
+                 'with non-constant data a wrong advance places bytes in the wrong fragment; the suite encodes a constant buffer')
+    cursor_rule(P, r, 'prepare_fragments_for_encode', 'src')
+    cursor_rule(P, r, 'fragments_to_string', 'dst')
+    r.require_min(2)
+
+    # ---------------- R01b / R01c
+    rb = ctx.rule('R01b', 'every fragment handed to the backends is 16-byte aligned: fresh allocation or is_addr_aligned(., 16) passed',
+                  'C01 covers unaligned caller buffers; _mm_xor_si128 through __m128i* faults on them')
+    rc = ctx.rule('R01c', 'replacement copy of an unaligned fragment copies header + payload into a buffer of matching size',
+                  'a copy short by sizeof(header) zeroes the last 80 payload bytes of every realigned survivor')
+    rule_realign(ctx, P, rb, rc)
     rb.require_min(5); rc.require_min(2)
+    rk = ctx.rule('R01d', 'coding kernels process every byte of the block (XOR kernel, RS region_xor / region_multiply)',
+                  'payload sizes are multiples of 2 or 4 bytes only: a kernel tail for another width leaves the last bytes of parity / rebuilt data stale')
+    from .. import xorrules, regions
+    xorrules.kernel_rule(P, rk)
+    regions.region_cover_rule(P, rk, 'region_xor', 1, 2)
+    regions.region_cover_rule(P, rk, 'region_multiply', 1, 4)
+    rk.require_min(5)
